@@ -350,6 +350,10 @@ func runConcurrency(rc *RunCtx) *Violation {
 		churn = 150 + simrt.Choose(160)
 		rc.probe("long sequential history (hundreds of distinct cache keys) before the concurrent phase")
 	}
+	deepRun := simrt.Choose(16) == 1
+	if deepRun {
+		rc.probe("all tasks parse deeply nested input (250-450 levels) concurrently")
+	}
 	opSerial := 0
 	opDelims := func() [3]string {
 		if churn == 0 {
@@ -404,6 +408,18 @@ func runConcurrency(rc *RunCtx) *Violation {
 				op.input = []string{"1 + 2 * (3 - y)", "f(x, g(1))", "(", "a b"}[simrt.Choose(4)]
 			} else {
 				x, _ := drawDoc(sp.w, opDelims(), 4)
+				if deepRun && !backtrackingWorlds[sp.w.name] {
+					// all tasks work on deeply nested input at the same time
+					var nests []*doc
+					for i := range sp.w.docs {
+						if sp.w.docs[i].nest != nil {
+							nests = append(nests, &sp.w.docs[i])
+						}
+					}
+					if len(nests) > 0 {
+						x = instantiate(nests[simrt.Choose(len(nests))].nest(250+simrt.Choose(200)), delims)
+					}
+				}
 				op.input = x
 				if withFaults && !sp.w.verbatim {
 					op.input, _ = deriveInput(rc, x, nil, allContentFaults)
